@@ -1066,19 +1066,21 @@ impl World {
                                 // needs its next hop before it is dropped, so it can be starved too
                                 let needs_neighbour = self.net.eth && !self.net.is_bcast4(&r.dst) && !r.dst.is_multicast();
                                 if needs_neighbour
-                                    && (0..k).any(|j| self.blocked_head(j))
+                                    && (0..self.socks.len()).any(|j| j != k && self.blocked_head(j))
                                 {
                                     behind_starved = true;
                                 }
                             }
                             Class::Must => {
                                 let needs_neighbour = self.net.eth && !self.net.is_bcast4(&r.dst) && !r.dst.is_multicast();
+                                // (any other socket: which one gets the single discovery slot first is
+                                // the stack's service order, which no property fixes)
                                 let starved = behind_starved
                                     || needs_neighbour
-                                        && (0..k).any(|j| self.blocked_head(j));
+                                        && (0..self.socks.len()).any(|j| j != k && self.blocked_head(j));
                                 behind_starved = starved;
                                 let key = if starved {
-                                    "tx:neighbour-discovery-starved-by-earlier-socket"
+                                    "tx:neighbour-discovery-starved-by-another-socket"
                                 } else {
                                     "tx:datagram-never-transmitted"
                                 };
